@@ -226,6 +226,37 @@ func (c *Ctx) dirtyReceiver(h *harness, s *State, mc MsgCase) *Ptr {
 		return (mc.Inner + 1) % len(tab.Entries)
 	}
 	dv := g2.Object(s, mc.Mod, mc.Typ, "")
+	// the discriminator fields of the dirty receiver are arbitrary too (not tied to the body it holds): a receiver
+	// left behind by a failed decode, or filled by hand, may pair any key with any body
+	var loosen func(v *SVal)
+	loosen = func(v *SVal) {
+		if v == nil || v.K != 'o' {
+			return
+		}
+		ts := c.sc.Mods[v.Mod].Types[v.Typ]
+		if bf := ts.BodyField(); bf != nil {
+			for i := range ts.Fields {
+				if ts.Fields[i].Go != bf.Key {
+					continue
+				}
+				switch ts.Fields[i].Kind {
+				case "fixstr":
+					v.F[i] = g2.symText(s, "dirty_key", ts.Fields[i].Width)
+				default:
+					v.F[i] = &SVal{K: 'i', T: c.e().freshVar("dirty_key", typeWidth(ts.Fields[i].Type))}
+				}
+			}
+		}
+		for _, f := range v.F {
+			loosen(f)
+			if f != nil {
+				for _, l := range f.L {
+					loosen(l)
+				}
+			}
+		}
+	}
+	loosen(dv)
 	return g2.MaterializePtr(s, dv)
 }
 
